@@ -21,7 +21,7 @@ PLAN = {
     "thorough": ([("D3", 2), ("C2", 3), ("K1", 2), ("M5", 2), ("M4", 3), ("D1", 3), ("D2", 2), ("D0", 3), ("C1", 3), ("L1", 3), ("G1", 2), ("M1", 2), ("M2", 2)], 1),
 }
 _DEPTH = 0
-_KINDS = ("reuse", "del", "insert", "meta")  # quick: one mutation of each of these kinds per program
+_KINDS = ("deladd", "reuse", "del", "insert", "meta")  # quick: one mutation of each of these kinds per program
 _RENDERERS: dict = {}  # one long-lived DotRenderer per configuration, reused for every HUGR of the worker
 
 
